@@ -62,53 +62,70 @@ theorem nextPc_nojump {Val σ : Type} (S : Sem Val σ) (p : Program) (i : Nat) (
 
 /-! ### register-file writes -/
 
-theorem writeV_other {Val : Type} (vals : Nat → Val) :
-    ∀ (ds : List VReg) (k : Nat) (R : VReg → Val) (r : VReg), r ∉ ds → writeV vals ds k R r = R r
-  | [], _, _, _, _ => rfl
-  | d :: ds, k, R, r, h => by
-    simp only [List.mem_cons, not_or] at h
-    rw [writeV, writeV_other vals ds (k + 1) _ r h.2]
-    simp [h.1]
-
-theorem foldl_havoc_other {Val : Type} (al : PReg → PReg → Bool) (J : PReg → Val) :
-    ∀ (cl : List PReg) (P : PReg → Val) (x : PReg), (∀ q ∈ cl, ov al q x = false) →
-      (cl.foldl (havoc al J) P) x = P x
-  | [], _, _, _ => rfl
-  | q :: cl, P, x, h => by
-    rw [List.foldl_cons, foldl_havoc_other al J cl _ x (fun q' hq' => h q' (List.mem_cons_of_mem _ hq'))]
-    simp [havoc, h q (List.mem_cons_self ..)]
+theorem foldl_havoc_rel {Val : Type} (M : RegModel) (J : PReg → Val) (v : VReg) :
+    ∀ (cl : List PReg) (P : PReg → Val) (R : VReg → Val),
+      (M.fixed v = true ∨ ∀ q ∈ cl, ov M.alias q (M.colour v) = false) →
+      P (M.colour v) = R v →
+      (cl.foldl (havoc M.alias J) P) (M.colour v) = (cl.foldl (havocV M J) R) v
+  | [], _, _, _, h => h
+  | q :: cl, P, R, hc, h => by
+    rw [List.foldl_cons, List.foldl_cons]
+    apply foldl_havoc_rel M J v cl
+    · rcases hc with hc | hc
+      · exact Or.inl hc
+      · exact Or.inr (fun q' hq' => hc q' (List.mem_cons_of_mem _ hq'))
+    · cases ho : ov M.alias q (M.colour v) with
+      | false => simp [havoc, havocV, ho, h]
+      | true =>
+        rcases hc with hc | hc
+        · simp [havoc, havocV, ho, hc]
+        · rw [hc q (List.mem_cons_self ..)] at ho; cases ho
 
 /-- Sequential writes keep the relation `P (c v) = R v` on every value that is either
-    `Good` already (and whose register no later def overlaps) or written here, provided the
-    defs' registers are pairwise non-overlapping. -/
-theorem write_rel {Val : Type} (al : PReg → PReg → Bool) (J : PReg → Val) (c : VReg → PReg) (vals : Nat → Val) :
+    `G`ood already (not written here, and whose register no later def overlaps unless both
+    are fixed) or written here, provided the defs' registers are pairwise non-overlapping
+    and distinct fixed names are distinct registers. -/
+theorem write_rel {Val : Type} (M : RegModel) (J : PReg → Val) (vals : Nat → Val)
+    (hinj : ∀ v w, M.fixed v = true → M.fixed w = true → M.colour v = M.colour w → v = w) :
     ∀ (ds : List VReg) (k : Nat) (R : VReg → Val) (P : PReg → Val) (G : VReg → Prop),
-      (∀ v, G v → P (c v) = R v) →
-      (∀ v, G v → ∀ d ∈ ds, ov al (c d) (c v) = false) →
-      ds.Pairwise (fun a b => ov al (c a) (c b) = false) →
-      ∀ v, (G v ∨ v ∈ ds) → writeP al J c vals ds k P (c v) = writeV vals ds k R v
-  | [], _, R, P, G, hG, _, _, v, hv => by
+      (∀ v, G v → P (M.colour v) = R v) →
+      (∀ v, G v → v ∉ ds) →
+      (∀ v, G v → ∀ d ∈ ds, ov M.alias (M.colour d) (M.colour v) = false ∨ (M.fixed d = true ∧ M.fixed v = true)) →
+      ds.Pairwise (fun a b => ov M.alias (M.colour a) (M.colour b) = false) →
+      ∀ v, (G v ∨ v ∈ ds) → writeP M J vals ds k P (M.colour v) = writeV M J vals ds k R v
+  | [], _, R, P, G, hG, _, _, _, v, hv => by
     rcases hv with hv | hv
     · simpa [writeP, writeV] using hG v hv
     · cases hv
-  | d :: ds, k, R, P, G, hG, hD, hP, v, hv => by
+  | d :: ds, k, R, P, G, hG, hN, hD, hP, v, hv => by
     rw [writeP, writeV]
     have hP' := List.pairwise_cons.mp hP
-    apply write_rel al J c vals ds (k + 1) _ _ (fun w => G w ∨ w = d)
+    have hdnot : d ∉ ds := by
+      intro hd
+      have := hP'.1 d hd
+      rw [ov_refl] at this; cases this
+    apply write_rel M J vals hinj ds (k + 1) _ _ (fun w => G w ∨ w = d)
     · intro w hw
       rcases hw with hw | hw
-      · have hne := hD w hw d (List.mem_cons_self ..)
-        have hwd : w ≠ d := by
-          intro e; subst e; rw [ov_refl] at hne; cases hne
-        have hcne : c w ≠ c d := by
-          intro e; rw [e, ov_refl] at hne; cases hne
-        simp [writeReg, hcne, hne, hwd, hG w hw]
-      · subst hw; simp [writeReg]
+      · have hwd : w ≠ d := fun e => hN w hw (e ▸ List.mem_cons_self ..)
+        rcases hD w hw d (List.mem_cons_self ..) with hne | ⟨hfd, hfw⟩
+        · have hcne : M.colour w ≠ M.colour d := by
+            intro e; rw [e, ov_refl] at hne; cases hne
+          simp [writeReg, writeRegV, hcne, hne, hwd, hG w hw]
+        · have hcne : M.colour w ≠ M.colour d := fun e => hwd (hinj w d hfw hfd e)
+          cases ho : ov M.alias (M.colour d) (M.colour w) with
+          | false => simp [writeReg, writeRegV, hcne, ho, hwd, hG w hw]
+          | true => simp [writeReg, writeRegV, hcne, ho, hwd, hfd, hfw]
+      · subst hw; simp [writeReg, writeRegV]
+    · intro w hw
+      rcases hw with hw | hw
+      · exact fun h => hN w hw (List.mem_cons_of_mem _ h)
+      · subst hw; exact hdnot
     · intro w hw d' hd'
       rcases hw with hw | hw
       · exact hD w hw d' (List.mem_cons_of_mem _ hd')
       · subst hw
-        rw [ov_symm]; exact hP'.1 d' hd'
+        left; rw [ov_symm]; exact hP'.1 d' hd'
     · exact hP'.2
     · rcases hv with hv | hv
       · exact Or.inl (Or.inl hv)
@@ -122,14 +139,16 @@ theorem write_rel {Val : Type} (al : PReg → PReg → Bool) (J : PReg → Val) 
 structure InstrOk (p : Program) (A : Alloc) (i : Nat) (ins : Instr) : Prop where
   uses_live : ∀ u ∈ ins.uses, u ∈ A.live i
   out_live : ∀ j ∈ succs p i ins, ∀ v ∈ A.live j, v ∈ ins.defs ∨ v ∈ A.live i
-  move_wf : ins.isMove = true → ∃ s d, ins.uses = [s] ∧ ins.defs = [d] ∧ ins.jumps.isEmpty = true
+  move_wf : ins.isMove = true →
+    ∃ s d, ins.uses = [s] ∧ ins.defs = [d] ∧ ins.jumps.isEmpty = true ∧ ins.clobbers = []
   removed_ok : A.removed i = true →
-    ∃ s d, ins.isMove = true ∧ ins.uses = [s] ∧ ins.defs = [d] ∧ ins.jumps.isEmpty = true ∧ A.colour d = A.colour s
-  defs_ok : A.removed i = false → ∀ j ∈ succs p i ins, ∀ v ∈ A.live j, v ∉ ins.defs → ∀ d ∈ ins.defs,
+    ∃ s d, ins.isMove = true ∧ ins.uses = [s] ∧ ins.defs = [d] ∧ A.colour d = A.colour s
+  defs_ok : ∀ j ∈ succs p i ins, ∀ v ∈ A.live j, v ∉ ins.defs → ∀ d ∈ ins.defs,
     ov A.alias (A.colour d) (A.colour v) = false ∨
-      (ins.isMove = true ∧ ins.uses = [v] ∧ A.colour d = A.colour v)
-  clob_ok : A.removed i = false → ∀ j ∈ succs p i ins, ∀ v ∈ A.live j, v ∉ ins.defs → ∀ q ∈ ins.clobbers,
-    ov A.alias q (A.colour v) = false
+      (ins.isMove = true ∧ ins.uses = [v] ∧ A.colour d = A.colour v) ∨
+      (A.removed i = false ∧ A.isFixed d = true ∧ A.isFixed v = true)
+  clob_ok : A.removed i = false → ∀ j ∈ succs p i ins, ∀ v ∈ A.live j, v ∉ ins.defs →
+    A.isFixed v = true ∨ ∀ q ∈ ins.clobbers, ov A.alias q (A.colour v) = false
   defs_pw : A.removed i = false →
     ins.defs.Pairwise (fun a b => ov A.alias (A.colour a) (A.colour b) = false)
 
@@ -142,43 +161,43 @@ theorem instrOkB_sound (p : Program) (A : Alloc) (i : Nat) (ins : Instr) (h : in
   simp only [instrOkB, liveOkB, moveWfB, Bool.and_eq_true, List.all_eq_true, Bool.or_eq_true,
     List.contains_eq_mem, decide_eq_true_eq, liveOut, List.mem_flatMap, forall_exists_index, and_imp,
     Bool.not_eq_true', beq_iff_eq] at h
-  obtain ⟨⟨⟨hu, ho⟩, hm⟩, hrest⟩ := h
-  have hmove : ins.isMove = true → ∃ s d, ins.uses = [s] ∧ ins.defs = [d] ∧ ins.jumps.isEmpty = true := by
+  obtain ⟨⟨⟨⟨hu, ho⟩, hm⟩, hdefs⟩, hrest⟩ := h
+  have hmove : ins.isMove = true →
+      ∃ s d, ins.uses = [s] ∧ ins.defs = [d] ∧ ins.jumps.isEmpty = true ∧ ins.clobbers = [] := by
     intro hmv
     rcases hm with hm | hm
     · rw [hmv] at hm; cases hm
-    · obtain ⟨s, hs⟩ := len_one _ hm.1.1
-      obtain ⟨d, hd⟩ := len_one _ hm.1.2
-      exact ⟨s, d, hs, hd, hm.2⟩
+    · obtain ⟨s, hs⟩ := len_one _ hm.1.1.1
+      obtain ⟨d, hd⟩ := len_one _ hm.1.1.2
+      exact ⟨s, d, hs, hd, hm.1.2, by simpa using hm.2⟩
   refine ⟨hu, fun j hj v hv => ho v j hj hv, hmove, ?_, ?_, ?_, ?_⟩
   · intro hr
     rw [if_pos hr] at hrest
     simp only [removedOkB, Bool.and_eq_true] at hrest
-    obtain ⟨⟨hmv, hj⟩, hc⟩ := hrest
+    obtain ⟨hmv, hc⟩ := hrest
     obtain ⟨s, d, hs, hd, _⟩ := hmove hmv
     rw [hs, hd] at hc
-    exact ⟨s, d, hmv, hs, hd, hj, by simpa using hc⟩
-  · intro hr j hj v hv hvd d hd
-    rw [hr] at hrest
-    simp only [Bool.false_eq_true, if_false, Bool.and_eq_true] at hrest
-    have := hrest.1.1
+    exact ⟨s, d, hmv, hs, hd, by simpa using hc⟩
+  · intro j hj v hv hvd d hd
     simp only [defsOkB, List.all_eq_true, Bool.or_eq_true, List.contains_eq_mem, decide_eq_true_eq,
       List.mem_flatMap, forall_exists_index, and_imp, Bool.not_eq_true', exemptB,
-      Bool.and_eq_true, beq_iff_eq] at this
-    rcases this v j hj hv with h1 | h1
+      Bool.and_eq_true, beq_iff_eq] at hdefs
+    rcases hdefs v j hj hv with h1 | h1
     · exact absurd h1 hvd
-    · rcases h1 d hd with h2 | h2
+    · rcases h1 d hd with (h2 | h2) | h2
       · exact Or.inl h2
-      · exact Or.inr ⟨h2.1.1, h2.1.2, h2.2⟩
-  · intro hr j hj v hv hvd q hq
+      · exact Or.inr (Or.inl ⟨h2.1.1, h2.1.2, h2.2⟩)
+      · exact Or.inr (Or.inr ⟨h2.1.1, h2.1.2, h2.2⟩)
+  · intro hr j hj v hv hvd
     rw [hr] at hrest
     simp only [Bool.false_eq_true, if_false, Bool.and_eq_true] at hrest
-    have := hrest.1.2
+    have := hrest.1
     simp only [clobOkB, List.all_eq_true, Bool.or_eq_true, List.contains_eq_mem, decide_eq_true_eq,
       List.mem_flatMap, forall_exists_index, and_imp, Bool.not_eq_true'] at this
-    rcases this v j hj hv with h1 | h1
+    rcases this v j hj hv with (h1 | h1) | h1
     · exact absurd h1 hvd
-    · exact h1 q hq
+    · exact Or.inl h1
+    · exact Or.inr h1
   · intro hr
     rw [hr] at hrest
     simp only [Bool.false_eq_true, if_false, Bool.and_eq_true] at hrest
@@ -200,21 +219,46 @@ theorem checkFrom_sound (p : Program) (A : Alloc) :
       have e : i + 1 + k = i + (k + 1) := by omega
       rw [e] at this; exact this
 
+theorem pairwise_mem {α : Type} (r : α → α → Prop) (hs : ∀ a b, r a b → r b a) :
+    ∀ (l : List α), l.Pairwise r → ∀ a ∈ l, ∀ b ∈ l, a = b ∨ r a b
+  | [], _, a, ha, _, _ => by cases ha
+  | x :: l, h, a, ha, b, hb => by
+    have h' := List.pairwise_cons.mp h
+    rcases List.mem_cons.mp ha with ea | ha'
+    · rcases List.mem_cons.mp hb with eb | hb'
+      · exact Or.inl (ea.trans eb.symm)
+      · subst ea; exact Or.inr (h'.1 b hb')
+    · rcases List.mem_cons.mp hb with eb | hb'
+      · subst eb; exact Or.inr (hs _ _ (h'.1 a ha'))
+      · exact pairwise_mem r hs l h'.2 a ha' b hb'
+
 /-- what `check` establishes -/
 structure Checked (p : Program) (A : Alloc) : Prop where
   instr : ∀ i ins, p[i]? = some ins → InstrOk p A i ins
-  entry : (A.live 0).Pairwise (fun a b => a = b ∨ ov A.alias (A.colour a) (A.colour b) = false)
+  entry : (A.live 0).Pairwise (fun a b => a = b ∨ ov A.alias (A.colour a) (A.colour b) = false ∨
+    (A.isFixed a = true ∧ A.isFixed b = true))
+  inj : ∀ v w, A.isFixed v = true → A.isFixed w = true → A.colour v = A.colour w → v = w
 
 theorem check_sound (p : Program) (A : Alloc) (h : check p A = true) : Checked p A := by
   simp only [check, Bool.and_eq_true] at h
-  refine ⟨fun i ins hi => ?_, ?_⟩
+  refine ⟨fun i ins hi => ?_, ?_, ?_⟩
   · have := checkFrom_sound p A p 0 h.2 i ins hi
     simpa using this
-  · have := pairwiseB_sound _ _ h.1
+  · have := pairwiseB_sound _ _ h.1.2
     exact this.imp (by
       intro a b hab
-      simp only [Bool.or_eq_true, beq_iff_eq, Bool.not_eq_true'] at hab
-      exact hab)
+      simp only [Bool.or_eq_true, beq_iff_eq, Bool.not_eq_true', Bool.and_eq_true] at hab
+      rcases hab with (h1 | h1) | h1
+      · exact Or.inl h1
+      · exact Or.inr (Or.inl h1)
+      · exact Or.inr (Or.inr h1))
+  · intro v w hv hw hc
+    have hp := pairwiseB_sound _ _ h.1.1
+    simp only [Alloc.isFixed, List.contains_eq_mem, decide_eq_true_eq] at hv hw
+    rcases pairwise_mem (fun a b => (A.colour a != A.colour b) = true)
+      (by intro a b hab; simp only [bne_iff_ne, ne_eq] at hab ⊢; exact fun e => hab e.symm) _ hp v hv w hw with e | e
+    · exact e
+    · simp only [bne_iff_ne, ne_eq] at e; exact absurd hc e
 
 /-! ### the simulation relation and the one-step lemma -/
 
@@ -231,7 +275,7 @@ theorem args_agree {Val σ : Type} (A : Alloc) (p : Program) (s : VState Val σ)
 
 theorem step_rel {Val σ : Type} (S : Sem Val σ) (A : Alloc) (J : PReg → Val) (p : Program)
     (hc : Checked p A) (s : VState Val σ) (t : PState Val σ) (hr : Rel A s t) :
-    Rel A (vstep S p s) (pstep S A.alias A.colour A.removed J p t) := by
+    Rel A (vstep S A.model J p s) (pstep S A.model A.removed J p t) := by
   obtain ⟨hpc, hst, hregs⟩ := hr
   unfold vstep pstep
   rw [← hpc]
@@ -239,28 +283,41 @@ theorem step_rel {Val σ : Type} (S : Sem Val σ) (A : Alloc) (J : PReg → Val)
   | none => exact ⟨hpc, hst, hregs⟩
   | some ins =>
     have hok := hc.instr s.pc ins hi
-    have hargs := args_agree A p s t ins hok ⟨hpc, hst, hregs⟩
+    have hargs : ins.uses.map (fun v => t.regs (A.model.colour v)) = ins.uses.map s.regs :=
+      args_agree A p s t ins hok ⟨hpc, hst, hregs⟩
     simp only []
     cases hrm : A.removed s.pc with
     | true =>
-      obtain ⟨sv, d, hmv, hu, hd, hj, hcol⟩ := hok.removed_ok hrm
+      obtain ⟨sv, d, hmv, hu, hd, hcol⟩ := hok.removed_ok hrm
+      obtain ⟨_, _, hu', hd', hj, hcl⟩ := hok.move_wf hmv
       have hnext : nextPc S p s.pc ins (ins.uses.map s.regs) s.st = s.pc + 1 := nextPc_nojump _ _ _ _ _ _ hj
       simp only [if_true]
       refine ⟨hnext, ?_, ?_⟩
       · simp [newSt, hmv, hst]
       · intro v hv
         simp only [hnext] at hv
-        simp only [hd, hu, writeV, defVal, hmv, if_true, List.map_cons, List.map_nil]
+        simp only [hd, hu, hcl, List.foldl_nil, writeV, defVal, hmv, if_true, List.map_cons, List.map_nil]
         have hsv : sv ∈ A.live s.pc := hok.uses_live sv (by simp [hu])
+        have hsucc : s.pc + 1 ∈ succs p s.pc ins := by rw [succs_nojump p s.pc ins hj]; simp
         by_cases hvd : v = d
         · subst hvd
-          simp [hcol, hregs sv hsv]
-        · have hvin : v ∈ A.live s.pc := by
-            have := hok.out_live (s.pc + 1) (by rw [succs_nojump p s.pc ins hj]; simp) v hv
-            rcases this with h | h
-            · rw [hd] at h; simp at h; exact absurd h hvd
+          simp [writeRegV, hcol, hregs sv hsv]
+        · have hvnd : v ∉ ins.defs := by rw [hd]; simpa using hvd
+          have hvin : v ∈ A.live s.pc := by
+            rcases hok.out_live (s.pc + 1) hsucc v hv with h | h
+            · exact absurd h hvnd
             · exact h
-          simp [hvd, hregs v hvin]
+          rcases hok.defs_ok (s.pc + 1) hsucc v hv hvnd d (by simp [hd]) with h | h | h
+          · simp [writeRegV, Alloc.model, hvd, h, hregs v hvin]
+          · -- v is the source of the move
+            have hvs : sv = v := by have := h.2.1; rw [hu] at this; simpa using this
+            subst hvs
+            have hnf : ¬ (A.isFixed d = true ∧ A.isFixed sv = true) := by
+              intro hf; exact hvd (hc.inj sv d hf.2 hf.1 hcol.symm)
+            have : (A.isFixed d && A.isFixed sv) = false := by
+              cases h1 : A.isFixed d <;> cases h2 : A.isFixed sv <;> simp_all
+            simp [writeRegV, Alloc.model, hvd, this, hregs sv hvin]
+          · rw [hrm] at h; cases h.1
     | false =>
       simp only [Bool.false_eq_true, if_false]
       rw [hargs, ← hst]
@@ -268,42 +325,56 @@ theorem step_rel {Val σ : Type} (S : Sem Val σ) (A : Alloc) (J : PReg → Val)
       intro v hv
       generalize hnp : nextPc S p s.pc ins (ins.uses.map s.regs) s.st = j at hv
       have hj : j ∈ succs p s.pc ins := by rw [← hnp]; exact nextPc_mem ..
+      -- state after the clobbers
+      have hclob : ∀ x ∈ A.live j, x ∉ ins.defs →
+          (ins.clobbers.foldl (havoc A.model.alias J) t.regs) (A.model.colour x)
+            = (ins.clobbers.foldl (havocV A.model J) s.regs) x := by
+        intro x hx hxd
+        apply foldl_havoc_rel A.model J x
+        · exact hok.clob_ok hrm j hj x hx hxd
+        · rcases hok.out_live j hj x hx with h | h
+          · exact absurd h hxd
+          · exact hregs x h
       cases hmv : ins.isMove with
       | true =>
-        obtain ⟨sv, d, hu, hd, _⟩ := hok.move_wf hmv
+        obtain ⟨sv, d, hu, hd, _, hcl⟩ := hok.move_wf hmv
         have hsv : sv ∈ A.live s.pc := hok.uses_live sv (by simp [hu])
-        have hclsv := fun (x : VReg) (hx : x ∈ A.live j) (hxd : x ∉ ins.defs) =>
-          foldl_havoc_other A.alias J ins.clobbers t.regs (A.colour x) (hok.clob_ok hrm j hj x hx hxd)
-        simp only [hd, hu, writeV, writeP, defVal, hmv, if_true, List.map_cons, List.map_nil]
+        simp only [hd, hu, hcl, List.foldl_nil, writeV, writeP, defVal, hmv, if_true, List.map_cons, List.map_nil]
         by_cases hvd : v = d
-        · subst hvd; simp [writeReg]
+        · subst hvd; simp [writeReg, writeRegV, Alloc.model]
         · have hvnd : v ∉ ins.defs := by rw [hd]; simpa using hvd
           have hvin : v ∈ A.live s.pc := by
             rcases hok.out_live j hj v hv with h | h
             · exact absurd h hvnd
             · exact h
-          rcases hok.defs_ok hrm j hj v hv hvnd d (by simp [hd]) with h | h
+          rcases hok.defs_ok j hj v hv hvnd d (by simp [hd]) with h | h | h
           · have hcne : A.colour v ≠ A.colour d := by
               intro e; rw [e, ov_refl] at h; cases h
-            simp [writeReg, hcne, h, hvd, hclsv v hv hvnd, hregs v hvin]
+            simp [writeReg, writeRegV, Alloc.model, hcne, h, hvd, hregs v hvin]
           · obtain ⟨_, huv, hcol⟩ := h
-            have : sv = v := by rw [hu] at huv; simpa using huv
-            subst this
-            simp [writeReg, hcol, hvd]
+            have hvs : sv = v := by rw [hu] at huv; simpa using huv
+            subst hvs
+            have : (A.isFixed d && A.isFixed sv) = false := by
+              cases h1 : A.isFixed d <;> cases h2 : A.isFixed sv <;> simp_all
+              exact hvd (hc.inj sv d h2 h1 hcol.symm)
+            simp [writeReg, writeRegV, Alloc.model, hcol, hvd, this]
+          · obtain ⟨_, hfd, hfv⟩ := h
+            have hcne : A.colour v ≠ A.colour d := fun e => hvd (hc.inj v d hfv hfd e)
+            cases ho : ov A.alias (A.colour d) (A.colour v) with
+            | false => simp [writeReg, writeRegV, Alloc.model, hcne, ho, hvd, hregs v hvin]
+            | true => simp [writeReg, writeRegV, Alloc.model, hcne, ho, hvd, hfd, hfv]
       | false =>
-        have key := write_rel A.alias J A.colour (defVal S ins (ins.uses.map s.regs) s.st) ins.defs 0 s.regs
-          (ins.clobbers.foldl (havoc A.alias J) t.regs) (fun x => x ∈ A.live j ∧ x ∉ ins.defs)
-          (by
-            intro x hx
-            rw [foldl_havoc_other A.alias J ins.clobbers t.regs (A.colour x) (hok.clob_ok hrm j hj x hx.1 hx.2)]
-            rcases hok.out_live j hj x hx.1 with h | h
-            · exact absurd h hx.2
-            · exact hregs x h)
+        have key := write_rel A.model J (defVal S ins (ins.uses.map s.regs) s.st) hc.inj ins.defs 0
+          (ins.clobbers.foldl (havocV A.model J) s.regs)
+          (ins.clobbers.foldl (havoc A.model.alias J) t.regs) (fun x => x ∈ A.live j ∧ x ∉ ins.defs)
+          (fun x hx => hclob x hx.1 hx.2)
+          (fun x hx => hx.2)
           (by
             intro x hx d hd
-            rcases hok.defs_ok hrm j hj x hx.1 hx.2 d hd with h | h
-            · exact h
-            · rw [hmv] at h; cases h.1)
+            rcases hok.defs_ok j hj x hx.1 hx.2 d hd with h | h | h
+            · exact Or.inl h
+            · rw [hmv] at h; cases h.1
+            · exact Or.inr ⟨h.2.1, h.2.2⟩)
           (hok.defs_pw hrm)
         apply key
         by_cases hvd : v ∈ ins.defs
@@ -313,7 +384,7 @@ theorem step_rel {Val σ : Type} (S : Sem Val σ) (A : Alloc) (J : PReg → Val)
 theorem run_rel {Val σ : Type} (S : Sem Val σ) (A : Alloc) (Js : Nat → PReg → Val) (p : Program)
     (hc : Checked p A) :
     ∀ (n : Nat) (s : VState Val σ) (t : PState Val σ), Rel A s t →
-      Rel A (vrun S p n s) (prun S A.alias A.colour A.removed Js p n t)
+      Rel A (vrun S A.model Js p n s) (prun S A.model A.removed Js p n t)
   | 0, _, _, h => h
   | n + 1, s, t, h => by
     simp only [vrun, prun]
@@ -338,19 +409,6 @@ def entryRegs {Val : Type} (A : Alloc) (R : VReg → Val) : PReg → Val :=
     | some v => R v
     | none => R 0
 
-theorem pairwise_mem {α : Type} (r : α → α → Prop) (hs : ∀ a b, r a b → r b a) :
-    ∀ (l : List α), l.Pairwise r → ∀ a ∈ l, ∀ b ∈ l, a = b ∨ r a b
-  | [], _, a, ha, _, _ => by cases ha
-  | x :: l, h, a, ha, b, hb => by
-    have h' := List.pairwise_cons.mp h
-    rcases List.mem_cons.mp ha with ea | ha'
-    · rcases List.mem_cons.mp hb with eb | hb'
-      · exact Or.inl (ea.trans eb.symm)
-      · subst ea; exact Or.inr (h'.1 b hb')
-    · rcases List.mem_cons.mp hb with eb | hb'
-      · subst eb; exact Or.inr (hs _ _ (h'.1 a ha'))
-      · exact pairwise_mem r hs l h'.2 a ha' b hb'
-
 theorem entry_rel {Val σ : Type} (A : Alloc) (p : Program) (hc : Checked p A) (R : VReg → Val) (st : σ) :
     Rel A (⟨0, R, st⟩ : VState Val σ) ⟨0, entryRegs A R, st⟩ := by
   refine ⟨rfl, rfl, ?_⟩
@@ -365,13 +423,15 @@ theorem entry_rel {Val σ : Type} (A : Alloc) (p : Program) (hc : Checked p A) (
     have hcw' : A.colour w = A.colour v := by simpa using hcw
     have := pairwise_mem _ (by
       intro a b hab
-      rcases hab with e | e
+      rcases hab with e | e | e
       · exact Or.inl e.symm
-      · right; rw [ov_symm]; exact e) _ hc.entry w hw v hv
-    rcases this with e | e | e
+      · right; left; rw [ov_symm]; exact e
+      · right; right; exact ⟨e.2, e.1⟩) _ hc.entry w hw v hv
+    rcases this with e | e | e | e
     · rw [e]
     · rw [e]
     · rw [hcw', ov_refl] at e; cases e
+    · rw [hc.inj w v e.1 e.2 hcw']
 
 /-! ### static consequence: overlapping registers of live values are identical registers -/
 
@@ -380,76 +440,74 @@ inductive Reach (p : Program) : Nat → Prop
   | entry : Reach p 0
   | step (i j : Nat) (ins : Instr) : Reach p i → p[i]? = some ins → j ∈ succs p i ins → Reach p j
 
+/-- two live values, not both fixed registers, whose registers overlap are in the identical register -/
 theorem live_share_static (p : Program) (A : Alloc) (hc : Checked p A) :
-    ∀ i, Reach p i → ∀ v ∈ A.live i, ∀ w ∈ A.live i,
+    ∀ i, Reach p i → ∀ v ∈ A.live i, ∀ w ∈ A.live i, ¬ (A.isFixed v = true ∧ A.isFixed w = true) →
       ov A.alias (A.colour v) (A.colour w) = true → A.colour v = A.colour w := by
   intro i hi
   induction hi with
   | entry =>
-    intro v hv w hw ho
+    intro v hv w hw hnf ho
     have := pairwise_mem _ (by
       intro a b hab
-      rcases hab with e | e
+      rcases hab with e | e | e
       · exact Or.inl e.symm
-      · right; rw [ov_symm]; exact e) _ hc.entry v hv w hw
-    rcases this with e | e | e
+      · right; left; rw [ov_symm]; exact e
+      · right; right; exact ⟨e.2, e.1⟩) _ hc.entry v hv w hw
+    rcases this with e | e | e | e
     · rw [e]
     · rw [e]
     · rw [e] at ho; cases ho
+    · exact absurd e hnf
   | step i j ins _ hi hj ih =>
-    intro v hv w hw ho
+    intro v hv w hw hnf ho
     have hok := hc.instr i ins hi
-    cases hrm : A.removed i with
-    | true =>
-      obtain ⟨sv, d, _, hu, hd, _, hcol⟩ := hok.removed_ok hrm
-      have hsv : sv ∈ A.live i := hok.uses_live sv (by simp [hu])
-      -- every live-out value has a live-in representative with the same colour
-      have rep : ∀ x ∈ A.live j, ∃ y ∈ A.live i, A.colour y = A.colour x := by
-        intro x hx
-        rcases hok.out_live j hj x hx with h | h
-        · rw [hd] at h; simp at h; subst h; exact ⟨sv, hsv, hcol.symm⟩
-        · exact ⟨x, h, rfl⟩
-      obtain ⟨v', hv', ev⟩ := rep v hv
-      obtain ⟨w', hw', ew⟩ := rep w hw
-      rw [← ev, ← ew] at ho ⊢
-      exact ih v' hv' w' hw' ho
-    | false =>
-      by_cases hvd : v ∈ ins.defs
-      · by_cases hwd : w ∈ ins.defs
-        · rcases pairwise_mem _ (by intro a b hab; rw [ov_symm]; exact hab) _ (hok.defs_pw hrm) v hvd w hwd with e | e
+    by_cases hvd : v ∈ ins.defs
+    · by_cases hwd : w ∈ ins.defs
+      · cases hrm : A.removed i with
+        | true =>
+          obtain ⟨_, d, _, _, hd, _⟩ := hok.removed_ok hrm
+          rw [hd] at hvd hwd
+          simp at hvd hwd
+          rw [hvd, hwd]
+        | false =>
+          rcases pairwise_mem _ (by intro a b hab; rw [ov_symm]; exact hab) _ (hok.defs_pw hrm) v hvd w hwd with e | e
           · rw [e]
           · rw [e] at ho; cases ho
-        · rcases hok.defs_ok hrm j hj w hw hwd v hvd with e | e
-          · rw [e] at ho; cases ho
-          · exact e.2.2
-      · by_cases hwd : w ∈ ins.defs
-        · rcases hok.defs_ok hrm j hj v hv hvd w hwd with e | e
-          · rw [ov_symm, e] at ho; cases ho
-          · exact e.2.2.symm
-        · have hv' : v ∈ A.live i := by
-            rcases hok.out_live j hj v hv with h | h
-            · exact absurd h hvd
-            · exact h
-          have hw' : w ∈ A.live i := by
-            rcases hok.out_live j hj w hw with h | h
-            · exact absurd h hwd
-            · exact h
-          exact ih v hv' w hw' ho
+      · rcases hok.defs_ok j hj w hw hwd v hvd with e | e | e
+        · rw [e] at ho; cases ho
+        · exact e.2.2
+        · exact absurd ⟨e.2.1, e.2.2⟩ hnf
+    · by_cases hwd : w ∈ ins.defs
+      · rcases hok.defs_ok j hj v hv hvd w hwd with e | e | e
+        · rw [ov_symm, e] at ho; cases ho
+        · exact e.2.2.symm
+        · exact absurd ⟨e.2.2, e.2.1⟩ hnf
+      · have hv' : v ∈ A.live i := by
+          rcases hok.out_live j hj v hv with h | h
+          · exact absurd h hvd
+          · exact h
+        have hw' : w ∈ A.live i := by
+          rcases hok.out_live j hj w hw with h | h
+          · exact absurd h hwd
+          · exact h
+        exact ih v hv' w hw' hnf ho
 
-theorem vrun_succ {Val σ : Type} (S : Sem Val σ) (p : Program) :
-    ∀ (n : Nat) (s : VState Val σ), vrun S p (n + 1) s = vstep S p (vrun S p n s)
-  | 0, _ => rfl
-  | n + 1, s => by
-    rw [vrun, vrun_succ S p n (vstep S p s)]
+theorem vrun_succ {Val σ : Type} (S : Sem Val σ) (M : RegModel) (p : Program) :
+    ∀ (n : Nat) (Js : Nat → PReg → Val) (s : VState Val σ),
+      vrun S M Js p (n + 1) s = vstep S M (Js 0) p (vrun S M (fun k => Js (k + 1)) p n s)
+  | 0, _, _ => rfl
+  | n + 1, Js, s => by
+    rw [vrun, vrun_succ S M p n Js (vstep S M (Js (n + 1)) p s)]
     rfl
 
-theorem vrun_reach {Val σ : Type} (S : Sem Val σ) (p : Program) (R : VReg → Val) (st : σ) :
-    ∀ n, Reach p (vrun S p n (⟨0, R, st⟩ : VState Val σ)).pc
-  | 0 => Reach.entry
-  | n + 1 => by
+theorem vrun_reach {Val σ : Type} (S : Sem Val σ) (M : RegModel) (p : Program) (R : VReg → Val) (st : σ) :
+    ∀ n (Js : Nat → PReg → Val), Reach p (vrun S M Js p n (⟨0, R, st⟩ : VState Val σ)).pc
+  | 0, _ => Reach.entry
+  | n + 1, Js => by
     rw [vrun_succ]
-    have ih := vrun_reach S p R st n
-    generalize vrun S p n (⟨0, R, st⟩ : VState Val σ) = s at ih ⊢
+    have ih := vrun_reach S M p R st n (fun k => Js (k + 1))
+    generalize vrun S M (fun k => Js (k + 1)) p n (⟨0, R, st⟩ : VState Val σ) = s at ih ⊢
     unfold vstep
     cases hi : p[s.pc]? with
     | none => exact ih
